@@ -1,7 +1,7 @@
 """C20 -- configuration objects and textual settings (structural part)."""
 import re
 
-from abtverif import cfg, seq, terms
+from abtverif import canon, cfg, seq, terms
 from abtverif.seq import idx, is_call, show, has_if
 from . import common
 
@@ -39,26 +39,34 @@ def rule_R1(P, rep):
                                ("load_env_uint64", "ABTU_atoui64", "ABTU_max_uint64", "ABTU_min_uint64"),
                                ("load_env_size", "ABTU_atosz", "ABTU_max_size", "ABTU_min_size")):
         F = P.fn(fn, ENV)
-        sel = seq.Sel(calls={parser, "get_abt_env"}, conds=lambda t: "abt_errno" in t or t == "env", rets=True)
+        defp = F.params[1]["n"]
+        lo, hi = F.params[2]["n"], F.params[3]["n"]
+        sel = seq.Sel(calls={parser, "get_abt_env"}, conds=lambda t: t.startswith(parser + "(") or t.startswith("get_abt_env("),
+                      rets=True, canon=True)
         n = 0
         for toks, kind, rv, rtxt in seq.sequences(F, sel):
             if kind != "ret":
                 continue
             n += 1
-            m = re.match(r"^%s\(min_val, %s\(max_val, (\w+)\)\)$" % (mx, mn), rtxt or "")
+            # canonical return text: locals that merely copy another variable on this path are resolved
+            m = re.match(r"^%s\(%s, %s\(%s, (\w+)\)\)$" % (mx, re.escape(lo), mn, re.escape(hi)), rtxt or "")
             why = []
             if not m:
-                why.append("return value %s is not %s(min_val, %s(max_val, X))" % (rtxt, mx, mn))
+                why.append("return value %s is not %s(%s, %s(%s, X))" % (rtxt, mx, lo, mn, hi))
             else:
                 x = m.group(1)
                 parsed = idx(toks, is_call(parser))
-                failed = any(t[0] == "if" and "abt_errno" in t[1] and (("!= 0" in t[1]) == t[2]) for t in toks)
-                if x == "val":
+                # the parser's result compared with ABT_SUCCESS (0): label true = non-zero = failed
+                failed = any(t[0] == "if" and t[1].startswith(parser + "(") and t[2] for t in toks)
+                outs = set(a[5:] for i in parsed for a in toks[i][2] if a.startswith("&var:"))
+                if x in outs:
                     if not parsed or failed:
                         why.append("returns the parsed value although nothing was parsed successfully")
-                elif x != "default_val":
+                    if not any(t[0] == "if" and t[1].startswith(parser + "(") and not t[2] for t in toks):
+                        why.append("returns the parsed value without testing the parser's result")
+                elif x != defp:
                     why.append("clamps %s" % x)
-                if parsed and failed and x != "default_val":
+                if parsed and failed and x != defp:
                     why.append("parse error does not fall back to the default")
             rep.ob("R1", "%s return [%s] -> %s" % (fn, show(toks)[:120], rtxt), not why, "; ".join(why), loc="%s:%d" % (F.file, F.line),
                    site="%s/%s/%d" % (fn, rtxt, len(toks)))
@@ -248,37 +256,54 @@ def rule_R5(P, rep):
     idxs = {}
     for fn in ("ABTU_hashtable_get", "ABTU_hashtable_set", "ABTU_hashtable_delete"):
         F = P.fn(fn, H)
-        defs = terms.single_defs(F)
-        idxs[fn] = re.sub(r"\s", "", terms.expand(F, defs["entry_index"], defs=defs)) if "entry_index" in defs else None
+        ge = [i for _b, i in F.calls("get_element")]
+        rep.need(len(ge) == 1, "%s: %d bucket lookups through get_element" % (fn, len(ge)))
+        idxs[fn] = re.sub(r"\s", "", canon.expr(F, F.nodes[ge[0]]["a"][1], depth=4))
     ref = idxs["ABTU_hashtable_get"]
     for fn, v in sorted(idxs.items()):
+        # the remainder of a negative key is negative: one alternative must add num_entries back
+        norm = "%ABTU_hashtable::num_entries" in (v or "") and "+ABTU_hashtable::num_entries" in (v or "")
         rep.ob("R5", "%s computes the bucket like ABTU_hashtable_get (negative keys normalised)" % fn, v is not None and v == ref and
-               "<0" in (v or ""), "%s vs %s" % (v, ref), loc=H, site="hashtable/index/" + fn)
+               norm, "%s vs %s" % (v, ref), loc=H, site="hashtable/index/" + fn)
     D = P.fn("ABTU_hashtable_delete", H)
-    sel = seq.Sel(assigns={"p_element", "pp_element"}, decls={"p_element", "pp_element"}, derefs={"pp_element"},
+    # the trailing link pointer and the cursor are found by type and use, not by name
+    pps = sorted(set(v["n"] for nd in D.nodes if nd and nd.get("k") == "decl" for v in nd["vars"]
+                     if v["t"].replace(" ", "") == "ABTU_hashtable_element**"))
+    rep.need(len(pps) == 1, "hashtable_delete: trailing link pointers %s" % pps)
+    PP = pps[0]
+    curs = set()
+    for _b, _i, lh, rh in D.stores():
+        if rh is None:
+            continue
+        rn = D.nodes[D.strip(rh)]
+        ln = D.nodes[D.strip(lh)]
+        if rn.get("k") == "un" and rn["op"] == "*" and D.nodes[D.strip(rn["e"])].get("n") == PP and ln.get("k") == "ref":
+            curs.add(ln["n"])
+    rep.need(len(curs) == 1, "hashtable_delete: cursors loaded through the link pointer: %s" % sorted(curs))
+    CUR = sorted(curs)[0]
+    sel = seq.Sel(assigns={CUR, PP}, decls={CUR, PP}, derefs={PP},
                   calls={"ABTU_free"}, conds=lambda t: "key ==" in t)
     n = 0
     for toks, kind, rv, rtxt in seq.sequences(D, sel, max_repeat=3, max_len=80):
-        un = [i for i, t in enumerate(toks) if t[0] == "dst" and t[1] == "pp_element"]
+        un = [i for i, t in enumerate(toks) if t[0] == "dst" and t[1] == PP]
         if kind != "ret" or not un:
             continue
         n += 1
         why = []
         # walk the cursor updates before the unlink: each advance of p_element must re-seat pp_element first
         for i, t in enumerate(toks[:un[0]]):
-            if t[0] == "decl" and t[1] == "p_element" and t[2] not in ("*pp_element",) and "get_element" not in (t[2] or ""):
-                prev = [u for u in toks[:i] if u[0] == "decl" and u[1] == "pp_element"]
-                why.append("cursor advanced with `p_element = %s` without re-seating the trailing link pointer" % t[2])
-            if t[0] == "decl" and t[1] == "p_element" and t[2] == "*pp_element":
+            if t[0] == "decl" and t[1] == CUR and t[2] not in ("*" + PP,) and "get_element" not in (t[2] or ""):
+                why.append("cursor advanced with `%s = %s` without re-seating the trailing link pointer" % (CUR, t[2]))
+            if t[0] == "decl" and t[1] == CUR and t[2] == "*" + PP:
                 prev = [u for u in toks[:i] if u[0] == "decl"][-1:]
-                if not prev or prev[0][1] != "pp_element" or prev[0][2] != "&p_element->p_next":
-                    why.append("`p_element = *pp_element` not immediately preceded by `pp_element = &p_element->p_next`")
-        if toks[un[0]][2] != "p_element->p_next":
+                if not prev or prev[0][1] != PP or prev[0][2] != "&%s->p_next" % CUR:
+                    why.append("`%s = *%s` not immediately preceded by `%s = &%s->p_next`" % (CUR, PP, PP, CUR))
+        if toks[un[0]][2] != "%s->p_next" % CUR:
             why.append("unlink stores %s" % toks[un[0]][2])
         fr = idx(toks, is_call("ABTU_free"))
-        if not fr or fr[0] < un[0] or toks[fr[0]][2] != ("var:p_element",):
+        if not fr or fr[0] < un[0] or toks[fr[0]][2] != ("var:" + CUR,):
             why.append("unlinked element not freed after the unlink")
-        rep.ob("R5", "hashtable_delete unlink path (%d advances)" % sum(1 for t in toks if t[0] == "decl" and t[1] == "pp_element"),
+        rep.ob("R5", "hashtable_delete unlink path (%d advances)" % sum(1 for t in toks if t[0] == "decl" and t[1] == PP),
                not why, "; ".join(sorted(set(why))), loc="%s:%d" % (D.file, D.line), site="hashtable/delete/%d" % len(toks))
     rep.need(n >= 2, "hashtable_delete: %d unlink paths" % n)
 
